@@ -14,6 +14,8 @@ seen = {}
 def kind_of(msg, dist):
     if 'byteCopy' in msg:
         return 'bytecopy'
+    if 'lz77 matcher' in msg:
+        return 'lz77'
     if 'split delivery' in msg:
         return 'split'
     if any(x in msg for x in ('header written', 'read back', 'writeTo', 'BFINAL is', 'code length code is neither')):
@@ -52,6 +54,8 @@ for line in open(out):
         inp = {"code_length_code_lengths": lens, "prefill": int(pf)}
     elif kind == 'huff':
         inp = {"histogram": lens, "length_limit": int(pf)}
+    elif kind == 'lz77':
+        inp = {"input_number_level_window_tokenlimit": lens, "input_shape": int(pf)}
     elif kind == 'bytecopy':
         inp = {"curr_dist_length": lens}
     elif kind == 'split':
